@@ -102,7 +102,7 @@ CLAIMED = {
              "run forward, velocities reversed, forward again on a copy must return to the initial state; the energy-error ratio under step "
              "halving and the trend of the energy error over a long horizon are measured. TLC's trace mode judges every record.",
         note="Exploration: thresholds are float comparisons in the harness (stage residuals ok below 1e-8 / violated above 1e-6 with solver tolerance "
-             "1e-11; return error ok below 1e-7 / violated above 1e-5; energy ratio ok in [3, 5.5] / violated below 2.4 or above 12; energy trend ok "
+             "1e-11; return error ok below 1e-8 / violated above 5e-8 (the unchanged solver returns to within 4e-10); energy ratio ok in [3, 5.5] / violated below 2.4 or above 12; energy trend ok "
              "below half / violated above three times the oscillation amplitude; not judged in between). Order and absence of drift are asymptotic "
              "statements: the model contributes the symmetry of the equation set (which implies even order) and the binding shows that the code "
              "solves that set; the measurements are supplements with wide bands.",
